@@ -21,8 +21,17 @@
 #include "private/implementations.h"
 #include "private/mutex.h"
 
+#ifndef TLS
+# ifdef _WIN32
+#  define TLS __declspec(thread)
+# else
+#  define TLS
+# endif
+#endif
+
 static volatile int initialized;
 static volatile int locked;
+static TLS int      locked_by_this_thread;
 
 int
 sodium_init(void)
@@ -89,6 +98,7 @@ sodium_crit_enter(void)
     EnterCriticalSection(&_sodium_lock);
     assert(locked == 0);
     locked = 1;
+    locked_by_this_thread = 1;
 
     return 0;
 }
@@ -96,12 +106,13 @@ sodium_crit_enter(void)
 int
 sodium_crit_leave(void)
 {
-    if (locked == 0) {
+    if (locked_by_this_thread == 0) {
 # ifdef EPERM
         errno = EPERM;
 # endif
         return -1;
     }
+    locked_by_this_thread = 0;
     locked = 0;
     LeaveCriticalSection(&_sodium_lock);
 
@@ -120,6 +131,7 @@ sodium_crit_enter(void)
     if ((ret = pthread_mutex_lock(&_sodium_lock)) == 0) {
         assert(locked == 0);
         locked = 1;
+        locked_by_this_thread = 1;
     }
     return ret;
 }
@@ -127,12 +139,13 @@ sodium_crit_enter(void)
 int
 sodium_crit_leave(void)
 {
-    if (locked == 0) {
+    if (locked_by_this_thread == 0) {
 # ifdef EPERM
         errno = EPERM;
 # endif
         return -1;
     }
+    locked_by_this_thread = 0;
     locked = 0;
 
     return pthread_mutex_unlock(&_sodium_lock);
@@ -158,12 +171,21 @@ sodium_crit_enter(void)
         __asm__ __volatile__ ("yield":::"memory");
 # endif
     }
+    locked_by_this_thread = 1;
+
     return 0;
 }
 
 int
 sodium_crit_leave(void)
 {
+    if (locked_by_this_thread == 0) {
+# ifdef EPERM
+        errno = EPERM;
+# endif
+        return -1;
+    }
+    locked_by_this_thread = 0;
     __sync_lock_release(&_sodium_lock);
 
     return 0;
